@@ -1217,8 +1217,6 @@ class TermCanvas(Canvas):
                 fg = self.attrspec.foreground_number
                 if self.attrspec.foreground_true:
                     fg = _color_desc_true(fg)
-                elif fg >= 8 and self.attrspec.colors == 16 and self.attrspec.bold:
-                    fg -= 8  # sgi_to_attrspec() adds it again for bold
 
             if "default" in self.attrspec.background:
                 bg = None
